@@ -1204,6 +1204,7 @@ def run(ctx):
         copts = COPTS[cidx % len(COPTS)] if cname == 'random' else COPTS[(cidx // 2) % 2]
         if (cname != 'random' and vi == 0) or (cname == 'random' and cidx % 12 == 0):
             run_tx_case(ctx, cname, vi, hist, op, seen_keys)
+            side_tx_case(ctx, cname, vi, hist, op, seen_keys)
         try:
             trials = trials_for(vi, hist, op, copts)
         except Exception as e:   # the harness itself could not build the state
@@ -1273,6 +1274,67 @@ def run(ctx):
                         'noop' if quiet else 'changed', 'noop' if same else 'changed')
 
 
+def side_tx_case(ctx, cname, vi, hist, op, seen_keys):
+    """IN-MEMORY database (one shared raw connection): a Transaction is open with uncommitted work (an insert and an
+    update made through it) while a write through the PLAIN connection fails (invalid value, constraint, injected error
+    at its only statement).  The failed write must change nothing: not the rows the transaction wrote, not what the
+    instances held on the transaction's side show."""
+    if op[0] not in ('setattr', 'set', 'create', 'sync') or (op[0] == 'set' and any(isinstance(e, (list, tuple)) for e in op[4])):
+        return
+    for k in (None, 1):
+        try:
+            env = build(vi, hist)
+            v = env.v
+            A = v.idx['A']
+            trans = env.conn.transaction()
+            env.trans = trans          # (dump(): stored rows only; close(): rolls it back)
+            txheld = {}
+            o = v.classes[A](n=900 + len(hist), connection=trans)
+            txheld[(A, o.id)] = o
+            for (c, i), m in sorted(env.held.items()):
+                if c == A and not m.sqlmeta._obsolete:
+                    t = v.classes[A].get(i, connection=trans)
+                    t.m = 42
+                    txheld[(c, i)] = t
+                    break
+        except Exception as e:
+            ctx.note('open-transaction case %s could not be built: %r' % (cname, e))
+            return
+        before = env.dump()
+        out, log = env.run(op, k)
+        ctx.case(('sidetx', vi, repr(hist), repr(op), k), nontrivial=(out != 'ok'),
+                 kind='open-tx:%s/%s%s' % (op[0], out, '' if k is None else '/inj'))
+        if out not in ('ok', 'AttributeError'):
+            probs = []
+            after = env.dump()
+            if after['T'] != before['T']:
+                probs.append('rows changed (the open transaction had written some of them): %s' % diff(before['T'], after['T']))
+            if after['L'] != before['L']:
+                probs.append('link rows changed: %s' % diff(before['L'], after['L']))
+            rows = {(c, i): vals for c, i, vals in after['T']}
+            for (c, i), o in sorted(txheld.items()):
+                if (c, i) not in rows:
+                    probs.append('%s#%d, held on the transaction\'s side, has no row any more' % (v.order[c], i))
+                    continue
+                for j, name in enumerate(v.colnames[c]):
+                    try:
+                        x = canon_val(getattr(o, name))
+                    except Exception as e:
+                        probs.append('reading %s#%d.%s on the transaction\'s side raises %s' % (v.order[c], i, name, type(e).__name__))
+                        break
+                    if x != rows[(c, i)][j]:
+                        probs.append('%s#%d on the transaction\'s side shows %s=%r, the row has %r' % (v.order[c], i, name, x, rows[(c, i)][j]))
+            if probs:
+                key = 'C06:unexpected:open-transaction-on-the-shared-connection:%s:%s' % (op[0], out)
+                desc = {'name': cname, 'variant': vi, 'history': jsonable(hist), 'op': jsonable(op), 'k': k, 'kind': 'o', 'sidetx': True}
+                if key not in seen_keys or len(seen_keys) < 40:
+                    seen_keys.add(key)
+                    ctx.oracle_fail(key, '%s through the plain connection raised %s%s while a transaction with uncommitted work was open '
+                                    '(in-memory database), but: %s' % (op[0], out, '' if k is None else ' (error injected at statement 1)',
+                                                                         '; '.join(probs[:4])), desc)
+        env.close()
+
+
 def run_tx_case(ctx, cname, vi, hist, op, seen_keys):
     try:
         trials = tx_trials(vi, hist, op)
@@ -1305,6 +1367,27 @@ def run_tx_case(ctx, cname, vi, hist, op, seen_keys):
 def replay(case):
     sqlo.setup()
     vi, hist, op = case['variant'], case['history'], case['op']
+    if case.get('sidetx'):
+        class _C(object):
+            def __init__(self):
+                self.fails = []
+                self.notes = []
+
+            def case(self, *a, **k):
+                pass
+
+            def note(self, t):
+                self.notes.append(t)
+
+            def oracle_fail(self, key, what, case):
+                self.fails.append(what)
+        c = _C()
+        only = case.get('k')
+        side_tx_case(c, case.get('name', 'replay'), vi, hist, op, set())
+        text = ['IN-MEMORY database, a transaction with uncommitted work is open, the call goes through the plain connection',
+                'history: %s' % (hist,), 'operation: %s (uninjected and with an error at statement 1)' % (op,)]
+        text += ['PROPERTY FAILS: ' + w for w in c.fails] or ['property holds for this case'] + c.notes
+        return (not c.fails), '\n'.join(text)
     if case.get('tx'):
         env = build(vi, hist, TX_OPTS, tmp_path())
         before = env.dump()
